@@ -241,17 +241,25 @@ class Ctx:
 
 
 class coq_lock:
-    """serialises translator runs and makes in /verif/coq (several checks may run at once)"""
+    """serialises translator runs and makes in /verif/coq (several checks may run at once); re-entrant within a process"""
+    depth = 0
+
     def __enter__(self):
         import fcntl
+        coq_lock.depth += 1
+        self.f = None
+        if coq_lock.depth > 1:
+            return
         os.makedirs(os.path.join(VERIF, "build"), exist_ok=True)
         self.f = open(os.path.join(VERIF, "build", ".coqlock"), "w")
         fcntl.flock(self.f, fcntl.LOCK_EX)
 
     def __exit__(self, *a):
         import fcntl
-        fcntl.flock(self.f, fcntl.LOCK_UN)
-        self.f.close()
+        coq_lock.depth -= 1
+        if self.f is not None:
+            fcntl.flock(self.f, fcntl.LOCK_UN)
+            self.f.close()
 
 
 def tree_reductions(t):
@@ -539,6 +547,13 @@ def coq_eval(name, requires, terms, chunk=200, timeout=600):
             if _killed(*o):
                 time.sleep(5 * (attempt + 1))
                 outs[i] = _run_chunk((paths[i], timeout))
+    # a case file that failed may have read a .vo another check was just rebuilding: once more, holding the build lock
+    # (an error of the development itself fails again and is reported)
+    if any(o[0] != 0 for o in outs):
+        with coq_lock():
+            for i, o in enumerate(outs):
+                if o[0] != 0:
+                    outs[i] = _run_chunk((paths[i], timeout))
     for (rc, out, err), path, ci in zip(outs, paths, range(0, len(terms), chunk)):
         n = len(terms[ci:ci + chunk])
         if rc != 0:
